@@ -354,7 +354,7 @@ pub fn replay(call: &str, clause: &str, args: &[u64]) -> Verdict {
 pub fn alphabet(quick: bool) -> Vec<[f64; 2]> {
     let mut v: Vec<[f64; 2]> = vec![[0.0, 0.0], [-0.0, 0.0], [0.0, -0.0], [-0.0, -0.0]];
     let his: Vec<f64> = {
-        let mut h = vec![1.0, -1.0, 2.0, 0.5, 3.0, -7.0, 1.5, 1.0 + 2f64.powi(-52), 2.0 - 2f64.powi(-52), core::f64::consts::PI, -core::f64::consts::E, 0.1, 1e-5, 123456.789, 2f64.powi(60) + 1024.0, -2f64.powi(-60), 1e300, -1e-300, 2f64.powi(-1000), 2f64.powi(1000), 2f64.powi(120), 2f64.powi(-120), 0.75, 0.25, 100.75, 709.5, -745.0, 2f64.powi(-1022), f64::MAX, 49.0];
+        let mut h = vec![1.0, -1.0, 2.0, 0.5, 3.0, -7.0, 1.5, 1.0 + 2f64.powi(-52), 2.0 - 2f64.powi(-52), core::f64::consts::PI, -core::f64::consts::E, 0.1, 1e-5, 123456.789, 2f64.powi(60) + 1024.0, -2f64.powi(-60), 1e300, -1e-300, 2f64.powi(-1000), 2f64.powi(1000), 2f64.powi(120), 2f64.powi(-120), 0.75, 0.25, 100.75, 709.5, -745.0, 2f64.powi(-1022), f64::MAX, 49.0, 10.0, core::f64::consts::E, 4.0, 0.1, 16.0, 180.0];
         if !quick {
             for k in [-900, -500, -108, -54, -53, -2, 3, 20, 53, 54, 107, 200, 500, 900] {
                 h.push(2f64.powi(k));
